@@ -4,3 +4,4 @@ INVARIANT OutShape
 INVARIANT DepthwiseIsConv
 INVARIANT Identity1x1
 INVARIANT CausalIsLeftPadded
+INVARIANT GroupedIsBlockDiagonal
